@@ -39,7 +39,11 @@ func vpFooterCheck(tag string, b []byte, count uint64, mode uint32) {
 // C11: built, loaded, merged and re-persisted segments.
 func vpH_C11_crc() {
 	g := vpNewGen(0)
-	docs := g.batch("b", 0, 2, []int{0, 1, 2, 5, 7})
+	max, tpl := 2, []int{0, 1, 2, 5, 7}
+	if vpThorough() {
+		max, tpl = 3, vpAllTemplates()
+	}
+	docs := g.batch("b", 0, max, tpl)
 	mode := g.mode("b")
 	g.done()
 	seg := vpBuild(docs, mode)
